@@ -334,6 +334,8 @@ def routing_family(tier, seed):
         fam += [("mixed", p) for p in mixed_operator_programs(rng, 100)]
     fam += [("deep", p) for p in deep_programs()]
     fam += [("deep-combined", p) for p in combined_deep_programs()]
+    ft = fallthrough_programs()
+    fam += [("fallthrough", p) for p in (ft if tier == "thorough" else ft[::2])]
     return fam
 
 
@@ -367,4 +369,41 @@ def derived_size_programs(sizes_):
         out.append(("size-string", prog(If(((Cmp(Id("fld"), "==", Lit(text)), Ret((Group(Lit(text), 1),))),), R()))))
         digits = ("1234567890" * 40)[:s]
         out.append(("size-int", prog(If(((Cmp(Id("fld"), "==", Lit(int(digits))), R()),), R()))))
+    return out
+
+
+# ------------------------------------------------------------------------------------
+# irregular else-if / else / nesting placements
+# ------------------------------------------------------------------------------------
+def fallthrough_programs():
+    """An outer chain (2 or 3 links, with and without else) whose FIRST link's body is an inner chain of three links closed
+    by an else (and one closed by nothing); every inner body is one of: return | if-without-else | if-with-else.  These
+    are the shapes where 'this branch always returns' reasoning, elif/else re-attachment and indentation bookkeeping go
+    wrong while all small skeletons and all regular deep shapes stay right: 3^3 x 2 x 2 + variants."""
+    import itertools
+    out = []
+    counter = [0]
+
+    def fld():
+        counter[0] += 1
+        return "q%d" % counter[0]
+
+    def body(kind):
+        if kind == "ret":
+            return R()
+        if kind == "if":
+            return If(((Cmp(Id(fld()), "==", Lit(1)), R()),), None)
+        return If(((Cmp(Id(fld()), "==", Lit(1)), R()),), R())
+    for kinds in itertools.product(("ret", "if", "ifelse"), repeat=3):
+        for inner_else in (True, False):
+            if not inner_else and kinds[1] == "ret" and kinds != ("ret", "ret", "ret"):
+                continue        # thin out the variants without inner else
+            for outer_links in (2, 3):
+                for outer_else in (False, True):
+                    counter[0] = 0
+                    inner = If(tuple((Cmp(Id(fld()), "==", Lit(1)), body(k)) for k in kinds), R() if inner_else else None)
+                    links = [(Cmp(Id(fld()), "==", Lit(1)), inner)]
+                    for _ in range(outer_links - 1):
+                        links.append((Cmp(Id(fld()), "==", Lit(1)), R()))
+                    out.append(prog(If(tuple(links), R() if outer_else else None)))
     return out
